@@ -534,6 +534,8 @@ def build_spec(case: dict) -> dict:
         else:
             tree["internal_heights"] = P("heights", [0.0])
             tree["keep_branch_lengths"] = True
+    if case.get("tree_options"):
+        tree.update(case["tree_options"])
     spec = {"id": "like", "type": "TreeLikelihoodModel", "tree_model": tree,
             "site_model": site_json(case["site"]),
             "site_pattern": ({"id": "sp", "type": "SitePattern", "alignment": aln, "indices": case["indices"]} if case.get("indices")
@@ -715,14 +717,16 @@ def gen_case(rng, n, topo: Node | None = None, subst=None, site=None, rooting=No
         case["dates"] = None
         case["clock"] = None
     else:
-        scheme = rng.choice(["contemporaneous", "from-zero", "years"])
+        scheme = rng.choice(["contemporaneous", "from-zero", "years", "decimal-years"])
         if scheme == "contemporaneous":
             dates = {nm: 0.0 for nm in names}
         elif scheme == "from-zero":
             dates = {nm: float(rng.choice([0, 0, 1, 2, 3])) for nm in names}
             dates[rng.choice(names)] = 0.0
-        else:
+        elif scheme == "years":
             dates = {nm: float(rng.choice([2010, 2011, 2012, 2014])) for nm in names}
+        else:  # non-dyadic decimals: not representable in single precision
+            dates = {nm: rng.choice([2010.1, 2011.37, 2012.123, 2013.9, 2014.55]) for nm in names}
         mx, mn = max(dates.values()), min(dates.values())
         leaf_h = {nm: (dates[nm] if mn == 0.0 else mx - dates[nm]) for nm in names}
         assign_heights(rng, topo, leaf_h)
@@ -940,7 +944,7 @@ def materialise(tree: Node, taxa, seq_order, seqs, base: dict) -> dict:
     """write down the tree/data held in `tree` (node-attached lengths / heights / rates) and `seqs` for a given
     taxa order, sequence order and child order: index-addressed vectors are recomputed from the node attributes"""
     case = {k: base[k] for k in ("datatype", "rooting", "subst", "site", "use_tip_states", "use_ambiguities", "dates")}
-    for k in ("genetic_code", "general", "indices"):
+    for k in ("genetic_code", "general", "indices", "tree_options"):
         if base.get(k) is not None:
             case[k] = base[k]
     case.update(taxa=list(taxa), seq_order=list(seq_order), seqs=dict(seqs))
